@@ -18,7 +18,7 @@ pub const ENTRY: Entry = Entry {
     rule: "odometer over (framebuffer shape x every window accepted by init x 8 orientations x colour type x transport) x the \
            in-bounds drawing alphabet (every position / every sub-rectangle / every ordered pixel pair); each case is executed on \
            the real driver from init and compared with the canvas specification through the pin-level decoder and the reference \
-           controller; plus every combination of 8 orientations x 4 refresh orders x 2 colour orders x 2 inversions on the external model and on every built-in model (boundary program, run-time orientation change, boundary program again); plus one chained program per configuration (all operations on one display, non-initial transport states) and \
+           controller; plus every combination of 8 orientations x 4 refresh orders x 2 colour orders x 2 inversions on the external model and on every built-in model (boundary program, run-time orientation change, boundary program again); plus long runs (1100 calls on one display, every call checked); plus one chained program per configuration (all operations on one display, non-initial transport states) and \
            depth-2 programs in thorough. Alphabets are deduplicated, so every case is distinct; non-trivial = the call wrote at \
            least one framebuffer cell.",
     assumptions: &[
@@ -326,6 +326,43 @@ fn run(ctx: &Ctx) -> Part {
             )
             .reduce(Acc::new, Acc::merge);
         acc = acc.merge(a2);
+    }
+
+    // ---- long runs on one display (explicit horizon: 1100 calls cycling through the alphabet, with an orientation change
+    // every 97 calls), every call compared with the canvas: state that only shows after many calls
+    {
+        let ljobs: Vec<Cfg> = vec![
+            Cfg::tiny(4, 3, false, Transport::RecSerial, (3, 2, 1, 1), 5),
+            Cfg::tiny(4, 3, false, Transport::Spi { len: 5 }, (3, 2, 1, 0), 2),
+            Cfg::tiny(4, 3, false, Transport::Par8, (2, 2, 1, 1), 7),
+            Cfg::tiny(4, 3, true, Transport::Spi { len: 7 }, (3, 2, 0, 1), 0),
+            Cfg::tiny(4, 3, false, Transport::Par16, (3, 3, 1, 0), 4),
+        ];
+        let a = ljobs
+            .par_iter()
+            .fold(Acc::new, |mut acc, cfg| {
+                let mut states = HashSet::new();
+                let mut hist: Vec<Op> = Vec::with_capacity(1100);
+                let mut o = cfg.orient;
+                let mut i = 0usize;
+                while hist.len() < 1100 {
+                    let g = crate::spec::Geo { orient: o, ..cfg.geo() };
+                    let (lw, lh) = g.lsize();
+                    let ops = alphabet(lw, lh, false);
+                    hist.push(ops[(i * 5 + i / 3) % ops.len()].clone());
+                    i += 1;
+                    if i % 97 == 0 {
+                        o = (o + 3) % 8;
+                        hist.push(Op::SetOrientation(o));
+                    }
+                }
+                check_one(ctx, &mut acc, cfg, &hist, &mut states);
+                acc.count("long_run_calls", hist.len() as u64);
+                acc.states += states.len() as u64;
+                acc
+            })
+            .reduce(Acc::new, Acc::merge);
+        acc = acc.merge(a);
     }
 
     // ---- every option combination: 8 orientations x 4 refresh orders x 2 colour orders x 2 inversions (position must
